@@ -268,8 +268,8 @@ def gen_md(rng, ids, axis):
 
 def gen_case(rng, quick=True, empty_axes=True):
     big = 6 if quick else 9
-    n = rng.randint(1, big)
-    m = rng.randint(1, big)
+    n = rng.choice([1, 2, 2, 3, 3, 4, 5, big])
+    m = rng.choice([1, 2, 2, 3, 3, 4, 5, big])
     if empty_axes and rng.random() < 0.08:
         if rng.random() < 0.5:
             n = 0
@@ -277,15 +277,15 @@ def gen_case(rng, quick=True, empty_axes=True):
             m = 0
     classes = rng.choice([("count",), ("count", "dyadic"), ("neg", "dyadic"), ("big", "tiny"), ("bits",),
                           core.VALUE_CLASSES, ("smallcount",)])
+    route = rng.choice(ROUTES)
+    if route == "subsample_full":
+        classes = rng.choice([("count",), ("smallcount",)])      # counts: subsampling needs integers
     obs = gen_ids(rng, n, "O")
     samp = gen_ids(rng, m, "S")
-    density = rng.choice([0.0, 0.15, 0.5, 0.8, 1.0])
+    density = rng.choice([0.0, 0.15, 0.3, 0.5, 0.5, 0.8, 0.8, 1.0, 1.0])
     spec = {"obs": obs, "samp": samp, "rows": core.gen_grid(rng, n, m, density, classes) if n and m else [[] for _ in range(n)],
             "omd": gen_md(rng, obs, "observation"), "smd": gen_md(rng, samp, "sample"),
             "type": rng.choice(core.TYPES), "table_id": rng.choice(TABLE_IDS)}
-    route = rng.choice(ROUTES)
-    if classes != ("count",) and classes != ("smallcount",) and route == "subsample_full":
-        route = "sort_order"
     case = {"spec": spec, "route": route, "perm_seed": rng.randint(0, 10 ** 6),
             "generated_by": rng.choice(GEN_BYS), "compress": rng.random() < 0.5,
             "date": rng.choice([None, [2020, 1, 2, 3, 4, 5, 0], [1999, 12, 31, 23, 59, 59, 999999],
@@ -347,7 +347,8 @@ def build_table(case):
         t.table_id = spec.get("table_id")
     elif route == "accessors":
         t = base
-        _ = t.nnz, t.sum(), list(t.iter(axis="observation")), t.matrix_data.tocsc(), t.get_table_density()
+        with np.errstate(all="ignore"):
+            _ = t.nnz, t.sum(), list(t.iter(axis="observation")), t.matrix_data.tocsc(), t.get_table_density()
         t._data = t._data.tocsc()            # the layout `_get_sparse_data`-style conversions leave behind
     elif route == "copy":
         t = base.copy()
@@ -539,7 +540,7 @@ def run(ctx):
         for case in CORPUS:
             check_case(ctx, case)
             ctx.count("corpus")
-        n = 420 if ctx.quick() else 12000
+        n = 560 if ctx.quick() else 12000
         for _ in range(n):
             check_case(ctx, gen_case(ctx.rng, ctx.quick()))
         for _ in range(12 if ctx.quick() else 200):
